@@ -619,6 +619,17 @@ let run_x86 (lines : string list) : unit =
                 | _ -> fmt_res r ^ " ; regs " ^ fmt_regs_x86 rg'))
           | "regenc" -> regenc k
           | "regdec" -> regdec k
+          | "msproc" ->
+            (* the SPECIFICATION side of C03 (Pe.ms_unwind), compared with the independent oracle *)
+            let md = Hashtbl.find_opt mods (next k) in
+            let rva = nx k in
+            let rg = parse_regs_x86 k in
+            (match md, Hashtbl.find_opt mems (next k) with
+             | Some { mdat = MPe pe; _ }, Some m ->
+               (match ms_unwind pe rva rg m with
+                | None -> "spec none"
+                | Some (ra, rg') -> "spec some " ^ hex ra ^ " ; regs " ^ fmt_regs_x86 rg')
+             | _ -> "bad")
           | _ -> "unknown-op " ^ op
         in
         Printf.printf "%d %s\n" lineno res
